@@ -9,6 +9,9 @@ TRUST = ("rustc's MIR construction, trait resolution and const evaluation (night
          "necessary conditions only: a tree can satisfy every rule and still compute a wrong value.")
 
 CLAIMED = {
+ "C04": dict(technique="offset provenance by backward slicing to a fixed point over parameters, offset-holding fields and helper functions + slice/offset agreement of fragment constructions + token tiling formula",
+             text="Decides that every offset reaching a Span/Text/TextFragment constructor is built only from token and text boundaries, string lengths and search results (each ± constant, subtraction, cast or foreign index is a reviewed entry), that fragments created from input slices carry the slice's own lower bound, and that token spans are (consumed before, consumed after += lexer length). This rules out the ±1-byte class that ASCII tests cannot see; start <= end, bounds, event order and successful rendering follow only under the assumption that the lexer advances by whole chars.",
+             ref="DESIGN.md §5 C04"),
  "C08": dict(technique="constant-argument and dominance rule for Linear values + per-outcome value lineage of Scale::scale + formula shape of linear_scale / scale_to_servings + field-to-field move lineage of every scaled structure",
              text="Decides which values can be Linear (only ingredient, non-text, non-locked quantities), that Fixed and failed values pass through scale() untouched and default_scale returns the written value, that number / range start / range end are each multiplied by the factor and the servings factor is target / first declared servings, that everything scaling must not touch is a move of the same-named input field and outcome vectors line up with their components, that cookware is never fitted, and that the declared servings order is preserved. That fitting preserves the amount is C09/C12 material; finiteness is not decided.",
              ref="DESIGN.md §5 C08"),
